@@ -120,6 +120,14 @@ func c15Paths() []Path {
 			es = append(es, h.withSteps(f))
 		}
 	}
+	// two recursive-descent steps in a row (the second walks below every node the first delivers),
+	// and a wildcard between them
+	seconds := []*Expr{sAny(0, -1), sAny(1, 1), sAny(-1, -1), sAny(0, 1), sAny(1, -1), sAny(2, 2)}
+	for _, a := range []*Expr{sAny(0, -1), sAny(0, 0), sAny(1, 1), sAny(2, 2), sAny(-1, -1), sAny(0, 1), sAny(1, 2), sAny(1, -1), sAnyKey(), sAnyArray()} {
+		for _, b := range seconds {
+			es = append(es, eRoot(a, b), eRoot(a, b, sAnyKey()), eRoot(a, sAnyKey(), b))
+		}
+	}
 	return bothModes(es)
 }
 
